@@ -152,6 +152,8 @@ def run_oracles(prog, meta, sessions):
     shadow = Shadow()
     td_exec_since_bu = False        # a top-down session executed something since the last bottom-up build (or the start)
     td_exec_before_last_bu = False  # ... as it was when the last bottom-up build started: the recorded finding O4 needs it
+    tdx_since_bu = set()            # the tasks such top-down sessions executed
+    tdx_before_last_bu = set()
     task_out = {}
     wf = prog.kind == 'wf'
     for si, s in enumerate(sessions):
@@ -283,6 +285,20 @@ def run_oracles(prog, meta, sessions):
         if s.step in meta.get('probe_steps', {}) and not ab and not had_abort and wf:
             stale = sorted(t for t in counts if t in completed)
             mixed = meta.get('mode') == 'mixed' and td_exec_before_last_bu
+            if mixed and stale and prev_nodes:
+                # O4 is: a top-down build in the window re-executed a DEPENDENCY of a task it did not reach.  It explains a stale task
+                # only if that task depends -- through recorded requires, or reads of resources such a task writes -- on a task that a
+                # top-down build executed between the last two bottom-up builds
+                def deps_of(t):
+                    seen = set(); st = ['T%d' % t]
+                    while st:
+                        x = st.pop()
+                        for (k, tgt, c_, st_) in prev_nodes.get(x, {}).get('outs', []):
+                            nxt = [tgt] if k in ('Q', 'V') else ([src for (kk, src) in prev_nodes.get(tgt, {}).get('ins', []) if kk == 'W'] if k == 'R' else [])
+                            for y in nxt:
+                                if y not in seen: seen.add(y); st.append(y)
+                    return seen
+                mixed = all(any(('T%d' % x) in deps_of(t) for x in tdx_before_last_bu) for t in stale)
             if prog.uses_failing:
                 if stale and not s.errs and not mixed:
                     out.append(('C18', 'stale-after-erring-bottom-up', '%s: after a bottom-up build during which checkers failed, task(s) %r were left stale (reused although a dependency check failed or was skipped)' % (where, stale)))
@@ -412,6 +428,27 @@ def run_oracles(prog, meta, sessions):
                 for w_ in ws:
                     if 'T%d' % w_ not in rec:
                         out.append(('C05', 'writer-not-recorded', '%s: task %d wrote %s in its latest execution but the store records writer(s) %r, so readers are not checked against it' % (where, w_, tgt, rec)))
+
+        # ---- C07: a build that returns never leaves tasks whose latest completed executions require each other in a cycle (each of
+        # them returned a value computed from the other's)
+        if not ab:
+            req = {}
+            for t, ops in latest_ops.items():
+                req[t] = set(int(str(tgt).lstrip('T')) for (k, tgt, c) in ops if k == 'Q' and str(tgt).lstrip('T').isdigit())
+            color = {}
+            cyc = None
+            def visit(u, path):
+                nonlocal cyc
+                color[u] = 1
+                for v in sorted(req.get(u, ())):
+                    if cyc: return
+                    if color.get(v) == 1: cyc = path[path.index(v):] + [v] if v in path else [u, v]; return
+                    if v not in color and v in req: visit(v, path + [v])
+                color[u] = 2
+            for t0 in sorted(req):
+                if t0 not in color and not cyc: visit(t0, [t0])
+            if cyc:
+                out.append(('C07', 'cyclic-requirements-not-diagnosed', '%s: build returned although the latest completed executions of tasks %r require each other in a cycle' % (where, cyc)))
 
         # a read that was rejected (hidden dependency) records nothing: the aborted reader must not be left with a read
         # dependency on that resource (it would make the legitimate writer abort later)
@@ -554,8 +591,10 @@ def run_oracles(prog, meta, sessions):
         prev_map = dict(s.map)
         if is_bu:
             td_exec_before_last_bu = td_exec_since_bu; td_exec_since_bu = False
+            tdx_before_last_bu = tdx_since_bu; tdx_since_bu = set()
         elif counts and s.step not in meta.get('probe_steps', {}):
             td_exec_since_bu = True
+            tdx_since_bu |= set(counts)
         for e in s.events:
             f = e.split()
             if f[0] == 'XS': completed.discard(int(f[1]))
